@@ -9,7 +9,7 @@ use crate::common::*;
 pub const STATIC_FORMATS: [&str; 3] = ["u", "unsnu", ""];
 
 const STRS: [&str; 12] = ["a", "b", "main", "libfoo", "0x10", "0x1f", "f", "sym1", "", "0x2a", "Other", "libbar"];
-const LIBS: [&str; 4] = ["libfoo", "libbar", "main", "a"];
+const LIBS: [&str; 7] = ["libfoo", "libbar", "main", "a", "v1/libfoo", "v2/libfoo", "x/a"];
 const CATS: [(&str, u64); 5] = [("Other", 12), ("Regular", 5), ("JS", 8), ("Other", 5), ("StCat", 6)];
 const SUBS: [&str; 4] = ["Other", "x", "y", "JIT"];
 const PIDS: [u64; 6] = [1, 1, 2, 9, 10, 100];
@@ -775,6 +775,39 @@ pub fn fixed_cases(_tier: Tier) -> Vec<Case> {
             "samesample t1 5",
             "samesample t1 6",
             "sample t1 0 k2 0",
+        ],
+    ));
+    // two different libraries with the same display name on one thread (the per-thread resource table must
+    // key by library, not by name): frames through mappings, relative addresses and native symbols in both
+    let v1 = hx("v1/libplugin");
+    let v2 = hx("v2/libplugin");
+    let plain = hx("libplugin");
+    v.push(case(
+        "same-name-libs",
+        &[
+            &format!("process p1 1 0 {a}"),
+            "thread t1 p1 1 0 1",
+            "thread t2 p1 2 0 0",
+            &format!("lib l1 {v1}"),
+            &format!("lib l2 {v2}"),
+            &format!("lib l3 {plain}"),
+            &format!("libsyms l2 0:64:{a}"),
+            "map p1 l1 4096 8192 0",
+            "map p1 l2 8192 12288 0",
+            "faddr f1 t1 ip 4100 o 0",
+            "faddr f2 t1 ra 8200 o 0",
+            "frel f3 t1 ip l1 100 o 0",
+            "frel f4 t1 ip l2 100 o 0",
+            "frel f5 t1 ip l3 100 o 0",
+            "faddr f6 t1 ip 8193 o 0",
+            &format!("nsym n1 t1 l2 200 8 {a}"),
+            "fsym f7 t1 rel ip l2 201 - n1 - - - 0 o 0",
+            "frel f8 t2 ip l2 100 o 0",
+            "frel f9 t2 ip l1 100 o 0",
+            "stackframes k1 t1 f1 f2 f3 f4 f5 f6 f7",
+            "stackframes k2 t2 f8 f9",
+            "sample t1 1 k1 0",
+            "sample t2 2 k2 0",
         ],
     ));
     // markers of all schema kinds, with stacks
